@@ -9,24 +9,56 @@ import (
 // BigAllocThreshold: a body whose first framing fault declares at least this
 // many bytes makes arrow-go allocate that much before it notices the bytes are
 // not there. Such an allocation succeeds under the 8 GiB address-space limit,
-// and a SECOND one in the same process reuses the freed span, which has to be
-// zeroed — tens of seconds of page faults per GiB on this machine. Those
-// bodies therefore get a child process of their own.
+// and a SECOND one in the same process reuses the span the collector just
+// freed, which then has to be zeroed — tens of seconds of page faults per GiB
+// on this machine (a fresh, never-touched span costs nothing). Bodies of that
+// kind therefore run in children with the collector off (GOGC=off: nothing is
+// reused), a few per child so that the sum of their declared lengths stays far
+// below the address-space limit and no innocent case can be the one that hits it.
 const BigAllocThreshold = 16 << 20
 
-// RunPartitioned runs inputs through mon.RunIsolated, the ones flagged big one
-// per child process, the rest in batches. Outcomes come back in input order.
-func RunPartitioned(kind string, inputs [][]byte, big []bool, batch int, timeout time.Duration) ([]mon.Outcome, error) {
-	var si, bi []int
-	var small, bigs [][]byte
-	for i, in := range inputs {
-		if big[i] {
-			bi, bigs = append(bi, i), append(bigs, in)
-		} else {
-			si, small = append(si, i), append(small, in)
-		}
+const binBudget = 3 << 30 // sum of declared lengths per GOGC=off child
+const binMax = 8
+
+// Declared returns the length the first framing fault of b declares (0 when
+// nothing is over-declared).
+func Declared(b []byte) int64 {
+	rep := Walk(b)
+	if rep.Class == Overdeclared || rep.Class == OverdeclaredHuge {
+		return rep.Declared
 	}
+	return 0
+}
+
+// RunPartitioned runs inputs through mon.RunIsolated (8 GiB ulimit -v).
+// declared[i] is Declared() of the hostile body inside inputs[i]. Inputs below
+// BigAllocThreshold go in batches of `batch`; the others are binned as
+// described above. Outcomes come back in input order.
+func RunPartitioned(kind string, inputs [][]byte, declared []int64, batch int, timeout time.Duration) ([]mon.Outcome, error) {
 	outs := make([]mon.Outcome, len(inputs))
+	var si []int
+	var small [][]byte
+	var bins [][]int
+	var cur []int
+	var curSum int64
+	for i, in := range inputs {
+		d := declared[i]
+		if d < BigAllocThreshold {
+			si, small = append(si, i), append(small, in)
+			continue
+		}
+		if d > binBudget { // will die (or take the whole budget): alone
+			bins = append(bins, []int{i})
+			continue
+		}
+		if len(cur) > 0 && (curSum+d > binBudget || len(cur) >= binMax) {
+			bins, cur, curSum = append(bins, cur), nil, 0
+		}
+		cur, curSum = append(cur, i), curSum+d
+	}
+	if len(cur) > 0 {
+		bins = append(bins, cur)
+	}
 	if len(small) > 0 {
 		o, err := mon.RunIsolated(kind, small, mon.ChildOpt{VMemKiB: 8 << 20, BatchSize: batch, Timeout: timeout})
 		if err != nil {
@@ -37,21 +69,19 @@ func RunPartitioned(kind string, inputs [][]byte, big []bool, batch int, timeout
 			outs[si[j]] = x
 		}
 	}
-	if len(bigs) > 0 {
-		o, err := mon.RunIsolated(kind, bigs, mon.ChildOpt{VMemKiB: 8 << 20, BatchSize: 1, Timeout: timeout})
+	for _, bin := range bins {
+		ins := make([][]byte, len(bin))
+		for j, i := range bin {
+			ins[j] = inputs[i]
+		}
+		o, err := mon.RunIsolated(kind, ins, mon.ChildOpt{VMemKiB: 8 << 20, Timeout: timeout, Env: []string{"GOGC=off"}})
 		if err != nil {
 			return nil, err
 		}
 		for j, x := range o {
-			x.Index = bi[j]
-			outs[bi[j]] = x
+			x.Index = bin[j]
+			outs[bin[j]] = x
 		}
 	}
 	return outs, nil
-}
-
-// IsBig reports whether a hostile body belongs in a child of its own.
-func IsBig(b []byte) bool {
-	rep := Walk(b)
-	return rep.Declared >= BigAllocThreshold
 }
